@@ -87,7 +87,14 @@ def event_actions(prev, cur):
         if a == b:
             continue
         if b["kind"] == "var":
-            acts.append(["setvar", b["where"], name, vprogs._lit(b["value"])])
+            va, vb = (a or {}).get("value"), b["value"]
+            if isinstance(va, list) and isinstance(vb, list) and len(vb) == len(va) + 1 and vb[:-1] == va and isinstance(vb[-1], int):
+                acts.append(["mutate", b["where"], name, vb[-1]])             # the list is appended to in place (same object)
+            elif isinstance(va, dict) and isinstance(vb, dict) and len(vb) == len(va) + 1 and all(vb.get(k) == v for k, v in va.items()) \
+                    and [k for k in vb if k not in va][0] == "k%s" % vb[[k for k in vb if k not in va][0]]:
+                acts.append(["mutate", b["where"], name, vb[[k for k in vb if k not in va][0]]])   # a key is added in place
+            else:
+                acts.append(["setvar", b["where"], name, vprogs._lit(b["value"])])
         else:
             acts.append(["exec", b["where"], vprogs.render_def(name, b, cur, "vpk")])
             # every alias name currently bound to the redefined function is re-bound to the new object
@@ -115,6 +122,9 @@ def in_process(editions, root, xs=(2,)):
             # functions listed under "fresh_args" (explicitly versioned roots whose version string the user leaves alone)
             # are called with an argument no earlier edition used: their body runs and reaches its callees from inside
             for x in ([2 + i] if n in prog.get("fresh_args", []) else xs):
+                if i % 2 == 1 and prog["defs"][n].get("explicit") is None:
+                    # the call is first made through a modifier clone created just now, then directly
+                    acts += [["clone", "cl%d_%s" % (i, n), n, "force_local"], ["call", "cl%d_%s" % (i, n), x]]
                 marks.append((i, n, len(acts)))
                 acts += [["call", n, x], ["unmemo", n, x]]
     out = vrun.child(dict(root=sub, pkg="vpk", store=store, actions=acts))
@@ -212,6 +222,20 @@ def corpus():
     y2 = json.loads(json.dumps(y1)); y2["defs"]["h1"]["const"] = 7
     y3 = json.loads(json.dumps(y2)); y3["defs"]["V1"]["value"] = 6
     out.append([y0, y1, y2, y3])
+    # keyword-only defaults of functions that have no positional default
+    k0 = dict(defs={"h1": _fn("plain", [], kwd=5), "m1": _fn("memento", [["h1", "bare"]], kwd=5), "m2": _fn("memento", [["m1", "bare"]])},
+              order=["h1", "m1", "m2"])
+    k1 = json.loads(json.dumps(k0)); k1["defs"]["m1"]["kwd"] = 6
+    k2 = json.loads(json.dumps(k1)); k2["defs"]["h1"]["kwd"] = 6
+    out.append([k0, k1, k2])
+    # a list / a dictionary variable changed in place (in-process: the same object), read by a helper and by the function
+    i0 = dict(defs={"V1": dict(kind="var", where="mod", value=[1, 2]), "V2": dict(kind="var", where="mod", value={"a": 1}),
+                    "h1": _fn("plain", [["V2", "bare"]]), "m1": _fn("memento", [["V1", "bare"], ["h1", "bare"]]), "m2": _fn("memento", [["m1", "bare"]])},
+              order=["V1", "V2", "h1", "m1", "m2"])
+    i1 = json.loads(json.dumps(i0)); i1["defs"]["V1"]["value"] = [1, 2, 10]
+    i2 = json.loads(json.dumps(i1)); i2["defs"]["V2"]["value"] = {"a": 1, "k12": 12}
+    i3 = json.loads(json.dumps(i2)); i3["defs"]["V1"]["value"] = [1, 2, 10, 11]
+    out.append([i0, i1, i2, i3])
     # F21: an alias re-bound between two functions that are both dependencies already
     a0 = dict(defs={"m1": _fn("memento", []), "m2": _fn("memento", [], const=2),
                     "m3": _fn("memento", [["m1", "bare"], ["m1", "alias"], ["m2", "bare"]])}, order=["m1", "m2", "m3"])
